@@ -155,6 +155,7 @@ func (interp *Interpreter) Execute(p *Program) (res reflect.Value, err error) {
 	// Init interpreter execution memory frame.
 	interp.frame.setrunid(interp.runid())
 	interp.frame.mutex.Lock()
+	interp.frame.run = &runState{}
 	interp.resizeFrame()
 	interp.frame.mutex.Unlock()
 
